@@ -283,6 +283,18 @@ def moments(qtype, alpha, beta, K):
         return [Fraction(1, k + 1) for k in range(K + 1)], None
     if qtype == "laguerre":
         return [Fraction(f(k)) for k in range(K + 1)], None
+    if qtype in ("glaguerre", "jacobi") and not (isinstance(alpha, int) and isinstance(beta, int)):
+        # non-integer parameters (given as Python floats = exact dyadic rationals): the moments are Gamma/Beta values, their
+        # ratios m_k/m_0 are rational functions of the parameters
+        al, be = Fraction(alpha), Fraction(beta)
+        if qtype == "glaguerre":
+            out = [Fraction(1)]
+            for k in range(1, K + 1): out.append(out[-1] * (al + k))
+            return out, "Gamma(alpha+1)"
+        # t = (1+x)/2 has the Beta(be+1, al+1) distribution: E t^j = prod_{i<j} (be+1+i)/(al+be+2+i)
+        Et = [Fraction(1)]
+        for j in range(1, K + 1): Et.append(Et[-1] * (be + j) / (al + be + 1 + j))
+        return [sum(Fraction(math.comb(k, j)) * 2 ** j * (-1) ** (k - j) * Et[j] for j in range(k + 1)) for k in range(K + 1)], "2^(a+b+1) B(a+1,b+1)"
     if qtype == "glaguerre":
         return [Fraction(f(k + alpha)) for k in range(K + 1)], None
     if qtype == "jacobi":
@@ -377,11 +389,46 @@ def build(rep, tier_, rng):
                 m2, n2 = rng.randint(1, 8), rng.randint(1, 8)
                 k2 = rng.choice(["int", "dy", "dec", "full", "sparse"])
                 A2 = qprops.rand_matrix(rng, mp, m2, n2, k2, cplx) if rng.random() < 0.8 else A
+                if rng.random() < 0.35 and A2 is not A:
+                    # rank-deficient shapes whose bidiagonal form has exact zeros on the diagonal: zero columns/rows and
+                    # singular upper triangular matrices with an interior zero pivot (several cancellation passes)
+                    how = rng.randrange(5); k2 = "zero-pivot"
+                    if how >= 3:
+                        # upper bidiagonal with an exact zero on the diagonal followed by at least two coupled rows (several passes of
+                        # the cancellation sweep), optionally with a leading zero column
+                        nb = rng.randint(3, 7); m2 = n2 = nb
+                        A2 = mp.matrix(nb, nb)
+                        z = rng.randint(0, nb - 3)
+                        for i in range(nb):
+                            A2[i, i] = 0 if i == z else rng.choice([-5, -3, -2, 1, 2, 3, 4, 6])
+                            if i + 1 < nb: A2[i, i + 1] = rng.choice([-4, -1, 1, 2, 3, 5])
+                        if how == 4:
+                            for i in range(nb): A2[i, 0] = 0
+                        cplx = False
+                    if how == 0:
+                        for i in range(m2): A2[i, rng.randrange(n2)] = 0
+                        jz = rng.randrange(n2)
+                        for i in range(m2): A2[i, jz] = 0
+                    elif how == 1:
+                        for i in range(m2):
+                            for j in range(min(i, n2)): A2[i, j] = 0
+                        for t in rng.sample(range(min(m2, n2)), min(min(m2, n2), rng.randint(1, 2))): A2[t, t] = 0
+                    else:
+                        iz = rng.randrange(m2)
+                        for j in range(n2): A2[iz, j] = 0
+                        for i in range(m2):
+                            for j in range(min(i, n2)): A2[i, j] = 0
                 svd_case(c, idx, A2, p, k2 if A2 is not A else kind, cplx, rng.random() < 0.4)
             if idx % 3 == 0:
                 qtype = rng.choice(["legendre", "legendre01", "laguerre", "glaguerre", "jacobi", "hermite",
-                                    "chebyshev1", "chebyshev2"])
-                gauss_case(c, idx, p, rng.randint(1, 8), qtype, rng.randint(0, 3), rng.randint(0, 3))
+                                    "chebyshev1", "chebyshev2", "jacobi", "glaguerre", "jacobi"])
+                al, be = rng.randint(0, 3), rng.randint(0, 3)
+                if qtype in ("glaguerre", "jacobi") and rng.random() < 0.6:
+                    if p < 100: p = rng.choice([100, 150, 200]); mp.prec = p
+                    # parameters given as Python floats with long mantissas: they must be used at the working precision
+                    al = rng.choice([0.1, 0.3, 1 / 3., 2.6, 0.5, 1.25, 0.7])
+                    be = rng.choice([0.1, 0.3, 1 / 3., 2.6, 0.5, 1.25, 0.7]) if qtype == "jacobi" else 0
+                gauss_case(c, idx, p, rng.randint(1, 8), qtype, al, be)
     finally:
         mp.prec = p0
     return c
